@@ -192,7 +192,7 @@ fn exchange(o: usize, h2: bool, r: usize, d: usize) -> Vec<Op> {
     vec![Op::Issue { origin: o, h2 }, Op::Poll(r), Op::DialOk(d), Op::Poll(r), Op::HsOk(d), Op::Poll(r), Op::Respond(r), Op::Poll(r), Op::BodyDone(r), Op::Bg, Op::Bg]
 }
 
-pub fn templates(seed: u64, n_random_each: usize, steps: usize) -> Vec<Scenario> {
+pub fn templates(seed: u64, n_random_each: usize, steps: usize, key_table_1100: bool) -> Vec<Scenario> {
     let mut out = Vec::new();
     let mut rng = StdRng::seed_from_u64(seed);
     let cfgs = |rng: &mut StdRng| -> LabConfig {
@@ -326,7 +326,7 @@ pub fn templates(seed: u64, n_random_each: usize, steps: usize) -> Vec<Scenario>
 
         // T9: several origins at once (C06)
         let mut c = cfgs(&mut rng);
-        c.origins = vec![origin("http://a.test"), origin("https://a.test"), origin("http://a.test:81"), origin("http://A.test"), origin("http://b.test"), origin("http://a.test:443"), origin("https://a.test:80"), origin("http://a.test:80"), origin("http://a.test@b.test"), origin("http://b.test@a.test")];
+        c.origins = vec![origin("http://a.test"), origin("https://a.test"), origin("http://a.test:81"), origin("http://A.test"), origin("http://b.test"), origin("http://a.test:443"), origin("https://a.test:80"), origin("http://a.test:80"), origin("http://a.test@b.test"), origin("http://b.test@a.test"), origin("http://user:pw@a.test:81")];
         let mut ops = vec![];
         ops.extend(exchange(0, false, 0, 0));
         ops.extend(exchange(1, false, 1, 1));
@@ -355,6 +355,24 @@ pub fn templates(seed: u64, n_random_each: usize, steps: usize) -> Vec<Scenario>
             ops.extend([Op::Issue { origin: last, h2: false }, Op::Poll(last), Op::Respond(0), Op::Poll(0), Op::BodyDone(0), Op::Bg, Op::Bg, Op::Poll(last), Op::Issue { origin: n_or - 1, h2: false }, Op::Poll(last + 1)]);
             let mut s = Scenario::new("key-table-pressure", c, ops);
             s.max_reqs = n_or + 2;
+            out.push(s);
+        }
+
+        // T9c: the same with more origins than a four-digit bound (first variant only: it is the slow one)
+        if _variant == 0 && key_table_1100 {
+            let mut c = cfgs(&mut rng);
+            let n_or = 1100usize;
+            c.origins = (0..n_or).map(|i| origin(&format!("http://h{i}.test"))).collect();
+            // origin 0: one idle connection; then every other origin is seen once (its dial fails); then origin 0 and the
+            // low-numbered origins again
+            let mut ops = exchange(0, false, 0, 0);
+            for i in 1..(n_or - 1) {
+                ops.extend([Op::Issue { origin: i, h2: false }, Op::Poll(i), Op::DialErr(i), Op::Poll(i)]);
+            }
+            let r = n_or - 1;
+            ops.extend([Op::Issue { origin: n_or - 1, h2: false }, Op::Poll(r), Op::Issue { origin: 1, h2: false }, Op::Poll(r + 1), Op::Issue { origin: 2, h2: false }, Op::Poll(r + 2), Op::Issue { origin: 0, h2: false }, Op::Poll(r + 3)]);
+            let mut s = Scenario::new("key-table-pressure-1100", c, ops);
+            s.max_reqs = n_or + 6;
             out.push(s);
         }
 
@@ -389,7 +407,7 @@ pub fn random_walks(seed: u64, n: usize) -> Vec<Scenario> {
         c.open_ignores_busy = rng.gen_bool(0.5);
         match i % 6 {
             0 => {}
-            5 => c.origins = vec![origin("http://a.test@b.test"), origin("http://a.test"), origin("http://b.test"), origin("http://user:pw@a.test"), origin("http://b.test@a.test")],
+            5 => c.origins = vec![origin("http://a.test@b.test"), origin("http://a.test"), origin("http://b.test"), origin("http://user:pw@a.test"), origin("http://b.test@a.test"), origin("http://user:pw@a.test:8080"), origin("http://a.test:8080")],
             1 => c.origins = vec![origin("http://a.test"), origin("https://a.test"), origin("http://a.test:443"), origin("https://a.test:80")],
             2 => c.origins = vec![origin("http://a.test"), origin("http://a.test:81"), origin("http://b.test")],
             3 => c.origins = vec![OriginCfg { uri: "https://alpn.test".into(), alpn_h2: true }, origin("http://A.test"), origin("http://a.test")],
@@ -785,7 +803,7 @@ pub fn run(args: &Args) -> Report {
         return rep;
     }
     let thorough = args.tier_thorough;
-    let mut scs = templates(args.seed, if thorough { 120 } else { 12 }, 25);
+    let mut scs = templates(args.seed, if thorough { 120 } else { 12 }, 25, args.wants("C06"));
     scs.extend(random_walks(args.seed, if thorough { 400_000 } else { 30_000 }));
     let n = scs.len() as u64;
     let scs_ref = &scs;
